@@ -70,7 +70,7 @@ def has_fact(facts: Iterable[str], pattern: str) -> bool:
 
 def need_facts(need: str) -> list[str]:
     """A need is a Python condition (canonicalised like a guard) or `re:<regex>`."""
-    if need.startswith("re:"):
+    if need.startswith("re:") or need.startswith("exhausted("):
         return [need]
     from .norm import facts as _facts
 
@@ -93,6 +93,14 @@ def _establishing(v: FnView, fact: str) -> list:
     from .norm import facts as _facts
 
     out = []
+    if fact.startswith("exhausted(") or fact.startswith("re:exhausted"):
+        # a for loop ran to completion (no break / early return): its for-exit node
+        for n in v.cfg.nodes:
+            if n.kind == "for-exit" and isinstance(n.node, (ast.For, ast.AsyncFor)):
+                f = "exhausted(" + " ".join(src(n.node.iter).split()) + ")"
+                if (fact.startswith("re:") and re.fullmatch(fact[3:], f)) or f == fact:
+                    out.append(n)
+        return out
     for n in v.cfg.nodes:
         if n.kind in ("T", "F") and isinstance(n.node, ast.expr):
             fs = set(_facts(n.node, n.kind == "T"))
